@@ -62,7 +62,10 @@ def mods_s(draw, base, stochastic_bias=False):
         # the generic observation function with a nested visibility-function entry
         vis = {'name': draw(st.sampled_from(['fully_transparent', 'partially_occluded', 'raytracing', 'stochastic_raytracing']))}
         if vis['name'] == 'raytracing' and draw(st.booleans()):
-            vis.update({'absolute_counts': draw(st.booleans()), 'threshold': draw(st.sampled_from([1, 2, 0.5, 1.0]))})
+            extra = {'absolute_counts': draw(st.booleans()), 'threshold': draw(st.sampled_from([1, 2, 0.5, 1.0]))}
+            if draw(st.booleans()):
+                extra = dict(reversed(list(extra.items())))       # a mapping lists its keys in any order
+            vis.update(extra)
         mods['obs'] = 'from_visibility'
         mods['vis'] = vis
     if draw(st.integers(0, 2)) == 0:
